@@ -341,7 +341,8 @@ fn bystanders(rng: &mut Prng, tier: Tier, buffer_size: usize, window_ns: u64) ->
         c.conn.settings = SettingsSpec { enable_push: Some(0), ..Default::default() };
         // one connection-level WINDOW_UPDATE up front, none later; per-stream updates in large steps
         c.conn.conn_window_bonus = 4_000_000;
-        c.conn.wu = WuPolicy { stream: WuMode::Threshold(30_000), conn: WuMode::WhenExhausted, fallback_ns: 20 * MS };
+        // (no idle fallback either: it would grant connection credit after every pause of a slow transfer)
+        c.conn.wu = WuPolicy { stream: WuMode::Threshold(30_000), conn: WuMode::WhenExhausted, fallback_ns: 0 };
         c.max_concurrent = *rng.pick(&[1u32, 3]);
         c.give_up_ns = 40 * SEC;
         c.start_ns = rng.below(3 * MS);
@@ -372,6 +373,8 @@ fn bystanders(rng: &mut Prng, tier: Tier, buffer_size: usize, window_ns: u64) ->
     } else {
         let mut c = H2ClientPlan::simple("probe", "192.0.2.200:50000".parse().unwrap(), https_front, Some(TlsPlan::h2(HOST_G)), vec![H2ReqSpec::get(ID_PROBE, HOST_G, "/probe")]);
         c.conn.settings = SettingsSpec { enable_push: Some(0), ..Default::default() };
+        c.conn.conn_window_bonus = 1_000_000;
+        c.conn.wu = WuPolicy { stream: WuMode::Threshold(30_000), conn: WuMode::WhenExhausted, fallback_ns: 0 };
         c.start_ns = PROBE_AT;
         c.give_up_ns = 30 * SEC;
         h2.push(c);
@@ -539,6 +542,8 @@ pub fn gen_backend(seed: u64, tier: Tier) -> NetPlan {
         let reqs: Vec<H2ReqSpec> = (0..nreq).map(|i| H2ReqSpec::get(ID_VICTIM + i, HOST_B, &format!("/v/{i}"))).collect();
         let mut c = H2ClientPlan::simple("victim", "192.0.2.7:40001".parse().unwrap(), "10.0.0.1:443".parse().unwrap(), Some(TlsPlan::h2(HOST_B)), reqs);
         c.conn.settings = SettingsSpec { enable_push: Some(0), ..Default::default() };
+        c.conn.conn_window_bonus = 1_000_000;
+        c.conn.wu = WuPolicy { stream: WuMode::Threshold(30_000), conn: WuMode::WhenExhausted, fallback_ns: 0 };
         c.max_concurrent = 1;
         c.give_up_ns = 60 * SEC;
         c.start_ns = rng.below(5 * MS);
